@@ -6,8 +6,9 @@ CondTrace.v (runs as traces), CondProofs.v, coq/Properties_C05.v.
 Tie: generated programs that are deadlock-free by construction and whose outcome is determinate iff no
 wake-up is lost (bounded buffer, turnstile, gate opened by a broadcast, ping-pong, hand-off, each optionally
 with spurious signallers that do not hold the mutex; gates whose ONE broadcast sees 8 / 33 / 130 / 300 waiters;
-signal storms of k signals against m queued waiters followed by late waiters) run on the real library under
-the schedule controller
+signal storms of k signals against m queued waiters followed by late waiters; object lifecycle: 2-3 incarnations
+of one condition variable through myth_cond_destroy / myth_cond_init with NULL or an initialised attribute)
+run on the real library under the schedule controller
 (harness/lib_interp.c); every trace is
  (1) replayed through the extracted model (tools/props/sync_common.py), and
  (2) judged by an independent oracle of the property itself (oracle() below): verdict, occupancy at every
@@ -27,7 +28,9 @@ CB_POINTS = ["blockq.enq@cond", "mutex.unlock.read@cb", "mutex.unlock.cas1@cb", 
 MAIN_POINTS = ["wakeany.deq", "wakeany.push", "wakeany.deq@empty", "wakeany.deq@nonempty"]
 SITUATIONS = ["woken_while_callback_unlocking", "two_callbacks_in_flight", "bcast_multi", "rewait",
               "cwait_resumed_on_other_worker", "cwait_returns_multiworker", "signal_multi_wake",
-              "storm_runs", "storm_exact", "banked_phase_waits"]
+              "storm_runs", "storm_exact", "banked_phase_waits",
+              "reinit_attr", "reinit_noattr", "reinit_while_released_not_resumed", "incarnations_judged",
+              "cdestroy_calls"]
 MAXSTATS = ["max_bcast_waiters"]          # aggregated by max, not by sum
 
 
@@ -179,13 +182,64 @@ def gen_storm(rng, N, k=None, m=None):
     return objs, threads, {"out": m, "fin": 1, "lateout": late, "ready": m}, ["c"], {"late": late_tags}
 
 
-FAMILIES = {"biggate": gen_biggate, "storm": gen_storm, "buffer": gen_buffer, "turnstile": gen_turnstile, "gate": gen_gate, "pingpong": gen_pingpong,
+def gen_lifecycle(rng, N):
+    """object lifecycle: 2-3 incarnations of ONE condition variable g.  A controller thread L runs each incarnation
+    as a gate whose waiters are started first (they announce themselves, so that they are all in the queue), opens
+    it with a broadcast, and - the queue being empty again, the released waiters possibly not yet resumed (surely
+    not when L still holds the mutex) - destroys g and re-initialises it with attr == NULL or an initialised
+    myth_condattr_t, on overwritten memory; the next incarnation's waiters are created only after that.  The last
+    incarnation is a gate or a hand-off (tokens, signal).  Optionally main destroys + re-initialises g before
+    anything starts (first incarnation through an explicit init, too)."""
+    ninc = rng.rng(2, 3)
+    K1 = rng.rng(1, 4)
+    objs = ["m mutex", "g cond", "r cond"]
+    threads, expect = {}, {}
+    L = 1
+    ops, tag, pre = [], 2, []
+    if rng.chance(1, 2):
+        pre = ["cdestroy g", "cinit g%s dirty" % rng.choice(["", " attr"])]
+    for i in range(ninc):
+        last = (i == ninc - 1)
+        K = K1 if rng.chance(2, 3) else rng.rng(1, 4)          # often as many waiters as were released before
+        kind = "handoff" if last and rng.chance(1, 3) else "gate"
+        objs += ["rdy%d var 0" % i, "cnt%d var 0" % i, ("tok%d var 0" if kind == "handoff" else "open%d var 0") % i]
+        ws = list(range(tag, tag + K))
+        tag += K
+        for t in ws:
+            if kind == "gate":
+                threads[t] = ["lock m", "add rdy%d 1" % i, "signal r", "await g m open%d eq 1" % i,
+                              "add cnt%d 1" % i, "unlock m"]
+            else:
+                threads[t] = ["lock m", "add rdy%d 1" % i, "signal r", "await g m tok%d gt 0" % i,
+                              "add tok%d -1" % i, "add cnt%d 1" % i, "unlock m"]
+        ops += ["create %d" % t for t in ws]
+        ops += ["lock m", "await r m rdy%d ge %d" % (i, K)]
+        re_init = [] if last else ["cdestroy g", "cinit g%s dirty" % rng.choice(["", " attr"])]
+        if kind == "handoff":
+            ops += ["unlock m"]
+            for _ in range(K):
+                ops += ["lock m", "add tok%d 1" % i, "signal g", "unlock m"]
+            expect["tok%d" % i] = 0
+        elif rng.chance(2, 3):
+            # destroy + re-init while L still holds the mutex: nobody released by the broadcast has resumed
+            ops += ["set open%d 1" % i, "bcast g"] + re_init + ["unlock m"]
+            expect["open%d" % i] = 1
+        else:
+            ops += ["set open%d 1" % i, "unlock m", "bcast g"] + re_init
+            expect["open%d" % i] = 1
+        expect["cnt%d" % i] = K
+        expect["rdy%d" % i] = K
+    threads[L] = ops
+    return objs, threads, expect, ["g"], {"late": sorted(t for t in threads if t != L), "pre": pre}
+
+
+FAMILIES = {"lifecycle": gen_lifecycle, "biggate": gen_biggate, "storm": gen_storm, "buffer": gen_buffer, "turnstile": gen_turnstile, "gate": gen_gate, "pingpong": gen_pingpong,
             "handoff": gen_handoff}
 
 
-def gen_case(rng, kind=None, workers=None, pswitch=None, spurious=None, **kw):
+def gen_case(rng, kind=None, workers=None, pswitch=None, spurious=None, hold=None, **kw):
     kind = kind or rng.choice(["buffer", "buffer", "turnstile", "gate", "gate", "pingpong", "handoff",
-                               "storm", "storm", "biggate"])
+                               "storm", "storm", "biggate", "lifecycle", "lifecycle"])
     workers = workers or rng.rng(1, 4)
     pswitch = pswitch or rng.choice([20, 35, 60, 85])
     seed = rng.rng(1, 1 << 30)
@@ -198,19 +252,27 @@ def gen_case(rng, kind=None, workers=None, pswitch=None, spurious=None, **kw):
         late = fam[4]["late"]
         storm = {"cond": "c", "m": nm, "k": sum(1 for o in threads[nm + 1] if o == "signal c"), "late": late}
         spurious = False                  # raw cond_wait: every wake-up is counted
+    pre = []
+    if kind == "lifecycle":
+        late, pre = fam[4]["late"], fam[4]["pre"]
+        spurious = False                  # nobody may touch g between destroy and init
+        if hold is None and rng.chance(1, 3):
+            hold = "mutex.lock.read %d %d" % (rng.rng(3, 12), rng.choice([30, 60, 100]))
     spurious = rng.chance(2, 5) if spurious is None else spurious
     if spurious:
         _spurious(rng, threads, conds, N, max(threads) + 1)
     tags = sorted(threads)
     order = list(tags)
     rng.shuffle(order)
-    main = ["create %d" % t for t in order if t not in late] + ["join %d" % t for t in tags] + \
+    main = pre + ["create %d" % t for t in order if t not in late] + ["join %d" % t for t in tags] + \
            ["get %s" % v for v in sorted(expect)]
+    if kind == "lifecycle":
+        main.append("cdestroy g")
     threads = dict(threads)
     threads[0] = main
-    text = trace.case_text(workers, seed, objs, threads, pswitch=pswitch)
+    text = trace.case_text(workers, seed, objs, threads, pswitch=pswitch, extra={"hold": hold} if hold else None)
     return {"text": text, "kind": kind, "N": len(threads), "workers": workers, "pswitch": pswitch,
-            "expect": expect, "spurious": bool(spurious), "storm": storm}
+            "expect": expect, "spurious": bool(spurious), "storm": storm, "hold": hold}
 
 
 # --------------------------------------------------------------------------------------------------
@@ -272,7 +334,8 @@ def analyse(case, r):
                     return ("callback of t%d enqueued on %s and cleared the lock bit %d times" %
                             (T, inst["enq"][1], len(inst["clears"])), st)
         elif e.kind == "C":
-            calls.setdefault(T, []).append({"op": e.words, "ev": [], "idx": idx, "w": e.w, "enq": None, "pushed": None})
+            calls.setdefault(T, []).append({"op": e.words, "ev": [], "idx": idx, "w": e.w, "enq": None, "pushed": None,
+                                            "q0": list(cq.get(e.words[1], [])) if e.words[0] in ("signal", "bcast") else None})
         elif e.kind == "P":
             pid, obj, val = e.words[0], e.words[1], e.words[2]
             s = _STATE.search(e.snap or "")
@@ -362,6 +425,7 @@ def analyse(case, r):
                 if c["pushed"] is None or not (c["enq"] < c["pushed"] < idx):
                     return ("cond_wait of t%d on %s returned without a push naming it after its enqueue "
                             "(banked signal / spurious return)" % (T, op[1]), st)
+                c["returned"] = True
                 if nworkers >= 2:
                     st["cwait_returns_multiworker"] += 1
                     if e.w != c["w"]:
@@ -373,7 +437,7 @@ def analyse(case, r):
                 if w and int(w[0][6:]) >= 2:
                     st["rewait"] += 1
             elif op[0] in ("signal", "bcast"):
-                msg = check_signal(T, op, c["ev"], st)
+                msg = check_signal(T, op, c["ev"], st, [x for x in c["q0"] if x in cq.get(op[1], [])])
                 if msg:
                     return (msg, st)
                 if op[0] == "bcast":
@@ -381,6 +445,24 @@ def analyse(case, r):
                     if firsts:
                         bcasts.append((firsts[0][0], idx, op[1], firsts[0][4] or [], T))
                         st["max_bcast_waiters"] = max(st["max_bcast_waiters"], len(firsts[0][4] or []))
+            elif op[0] in ("cdestroy", "cinit"):
+                # object lifecycle: legal only with nobody blocked on the condition; a fresh incarnation starts
+                # with an empty queue, and it is judged by the same rules from here on
+                cond = op[1]
+                if cq.get(cond) or any(h is not None and h[0] == cond for h in hand.values()):
+                    return ("GENERATOR: %s of %s while %s are blocked on it" % (op[0], cond, cq.get(cond)), st)
+                if ret != 0:
+                    return ("%s of %s returned %s" % (op[0], cond, ret), st)
+                if op[0] == "cdestroy":
+                    st["cdestroy_calls"] += 1
+                else:
+                    st["reinit_attr" if "attr" in op[2:] else "reinit_noattr"] += 1
+                    st["incarnations_judged"] += 1
+                    if "qempty=1" not in e.words[2:]:
+                        return ("cond_init of %s (%s) left a non-empty sleep queue (%s)" % (cond, " ".join(op[2:]) or "NULL attr", " ".join(e.words[2:])), st)
+                    if any(w["op"][1] == cond and w["pushed"] is not None and not w.get("returned") for w in waitrec.values()):
+                        st["reinit_while_released_not_resumed"] += 1
+                    cq[cond] = []
             elif op[0] == "get" and T == 0:
                 gets[op[1]] = ret
     # (e) broadcast: every member of the queue at its first dequeue was dequeued (by anybody) before the call
@@ -414,11 +496,18 @@ def analyse(case, r):
     return (None, st)
 
 
-def check_signal(T, op, ev, st):
-    """ev: main-context POINT events of one signal / bcast call: (idx, pid, obj, val, queue snapshot)"""
+def check_signal(T, op, ev, st, ignored=()):
+    """ev: main-context POINT events of one signal / bcast call: (idx, pid, obj, val, queue snapshot);
+    ignored: threads that were in the queue when the call began and still are when it returns"""
     cond = op[1]
     seq = [x for x in ev if x[2] == cond and x[1] in ("wakeany.deq", "wakeany.push")]
-    if not seq or seq[0][1] != "wakeany.deq":
+    if not seq:
+        # a call that never looks at the queue is fine only if nobody was blocked throughout
+        if ignored:
+            return "%s of t%d on %s returned without looking at the queue although %s were blocked on it throughout" % (
+                op[0], T, cond, ["t%d" % x for x in ignored])
+        return None
+    if seq[0][1] != "wakeany.deq":
         return "%s of t%d on %s did not inspect the queue" % (op[0], T, cond)
     i, ndeq = 0, 0
     while i < len(seq):
@@ -546,10 +635,14 @@ def run(ctx):
         d = ctx.rng.rng(1, 4)
         for k in (max(0, m - d), m, m + d):
             cases.append(gen_case(ctx.rng, kind="storm", workers=ctx.rng.rng(1, 4), k=k, m=m))
+    # object lifecycle: 2-3 incarnations of one condition variable (destroy right after the releasing broadcast,
+    # re-init with NULL / initialised attr on overwritten memory, next incarnation's waiters started first)
+    cases += [gen_case(ctx.rng, kind="lifecycle", workers=ctx.rng.rng(1, 4)) for _ in range(n // 5)]
     results, fails, mism, stats = judge(ctx, cases, exe, drv)
     need = CB_POINTS + ["wakeany.deq@empty", "wakeany.deq@nonempty", "wakeany.push",
                         "woken_while_callback_unlocking", "two_callbacks_in_flight", "cwait_returns",
-                        "cwait_resumed_on_other_worker", "storm_runs", "banked_phase_waits"]
+                        "cwait_resumed_on_other_worker", "storm_runs", "banked_phase_waits",
+                        "reinit_attr", "reinit_noattr", "reinit_while_released_not_resumed", "cdestroy_calls"]
     missing = [p for p in need if not stats.get(p)]
     want_big = 300 if ctx.thorough else 130
     if stats.get("max_bcast_waiters", 0) < want_big:
